@@ -33,7 +33,7 @@ ASSUMPTIONS = ['evaluate_bounded is excluded (interpreter-wide recursion limit),
                'no database change while an enumeration is suspended within one engine (that is C14)']
 
 NAMES = ['p', 'q', 't']
-PROBES = [('p', 1), ('q', 1), ('t', 1), ('p', 2), ('sp', 2), ('z0', 0)]
+PROBES = [('p', 1), ('q', 1), ('t', 1), ('p', 2), ('sp', 2), ('z0', 0), ('sh', 3)]
 
 
 def plan(tier, seed):
@@ -201,7 +201,20 @@ def engine_history(rng, eid, nsteps):
         # a large table tab/2 whose keys (first arguments) are the same atoms in every engine, contents differ
         for i in range(rng.choice([16, 17, 20, 33, 40])):
             hist.append(('assert_fact', C('tab', A('k%d' % (i % 7)), A('e%d_t%d' % (eid, i))), True))
+    shared = rng.random() < 0.4
+    if shared:
+        # facts in which a variable occurs several times, far apart (renaming them takes many steps: any
+        # per-process scratch state of the renaming would be disturbed by another engine in between)
+        pad = C('w', *[A('e%d_w%d' % (eid, i)) for i in range(rng.choice([3, 12, 30]))])
+        Xs, Ys = V('Xs'), V('Ys')
+        hist.append(('assert_fact', C('sh', Xs, pad, Xs), True))
+        hist.append(('assert_fact', C('sh', C('f', Xs, Ys), pad, gen.L([Ys, Xs])), True))
     for _ in range(nsteps):
+        if shared and rng.random() < 0.3:
+            sid += 1
+            key = rng.choice([A('e%d_s%d' % (eid, sid)), C('f', A('e%d_s%d' % (eid, sid)), I(sid))])
+            hist.append(('run', 'sh', [key, V('_'), V('Sv%d_%d' % (eid, sid))], rng.choice([None, None, 1])))
+            continue
         if big and rng.random() < 0.25:
             sid += 1
             hist.append(('run', 'tab', [A('k%d' % rng.randrange(7)), V('Tv%d_%d' % (eid, sid))], rng.choice([None, None, 2])))
